@@ -3,6 +3,11 @@
    service, one unrelated service) and the reader/writer procedures of nfcpy, one action per
    Write Without Encryption command:
 
+     Discover     nfc/tag/tt3.py  Type3Tag.NDEF._read_ndef_data: a tag that was not found under
+                    system code 12FCh is polled for 12FCh and the IDm/PMm of THAT answer is used
+                    from then on (on a multi-system FeliCa card every system has its own IDm, the
+                    system number being the upper nibble of IDm byte 0; a wildcard poll FFFFh is
+                    answered by system 0)
      Begin        nfc/tag/__init__.py:177-185  Tag.NDEF.octets setter (writeable + capacity check)
      WriteStep    nfc/tag/tt3.py:228-250       Type3Tag.NDEF._write_ndef_data
                     "w_on"    attribute block with WriteF := 0Fh          (re-encoded, RFU := 0)
@@ -38,9 +43,13 @@ CONSTANTS BS,          \* block size in bytes
           Nbrs, Nbws,  \* MC: Nbr / Nbw values (announced = physical)
           RWFlags, WriteFs, Vers, CkOks, Rfus,   \* MC: initial attribute variations
           MsgKinds,    \* MC: content patterns of the new message
+          Cards,       \* MC: 100*n + 10*pos + act: systems on the card, position of the NDEF system, system the
+                       \*     reader was activated in (0 after a wildcard poll, pos after a poll for 12FCh)
           WithCut, WithFormat
 
-VARIABLES tag,    \* [attr, mem, oth]  what is on the tag
+VARIABLES tag,    \* [attr, mem, oth, card]  what is on the tag; card = [n, pos]; oth = the unrelated service
+                  \*   of every system, concatenated in system order
+          ridm,   \* the system whose IDm the reader puts into its commands
           tag0,   \* the initial image (constant in a behaviour)
           phys,   \* [nbr, nbw] blocks per command the tag really accepts
           pc, op, \* procedure state
@@ -49,7 +58,7 @@ VARIABLES tag,    \* [attr, mem, oth]  what is on the tag
           i,      \* next block (write, wipe) / probe size (format)
           ncmd,   \* write commands sent so far (executed or refused)
           last    \* the last command sent
-vars == <<tag, tag0, phys, pc, op, msg, ra, i, ncmd, last>>
+vars == <<tag, ridm, tag0, phys, pc, op, msg, ra, i, ncmd, last>>
 
 NDEFRW == 9            \* service code 0009h
 OTHSC  == 4105         \* service code 1009h (unrelated service of the simulated tag)
@@ -57,7 +66,7 @@ OTHSC  == 4105         \* service code 1009h (unrelated service of the simulated
 Min2(a, b) == IF a < b THEN a ELSE b
 MaxS(S) == Max(S)
 Zeros(n) == [k \in 1..n |-> 0]
-NoCmd == [sc |-> <<>>, bl |-> <<>>, dat |-> <<>>]
+NoCmd == [sysn |-> -1, sc |-> <<>>, bl |-> <<>>, dat |-> <<>>]
 
 Ndef(v) == [k |-> "ndef", v |-> v]
 Empty == Ndef(<<>>)
@@ -71,11 +80,14 @@ Flat(M, n) ==                      \* the first n bytes of the data blocks
     LET bl == [b \in 1..((n + BS - 1) \div BS) |-> Blk(M, b)]
     IN [x \in 1..n |-> bl[((x - 1) \div BS) + 1][((x - 1) % BS) + 1]]
 NB(T) == T.mem.nb
-NOth(T) == Len(T.oth) \div BS
-ElemOk(T, s, b) == (s = NDEFRW /\ T.attr.rwflag # 0 /\ b <= NB(T)) \/ (s = OTHSC /\ b < NOth(T))
+NOth(T) == (Len(T.oth) \div BS) \div T.card.n          \* blocks of the unrelated service per system
+\* a command is executed by the system that owns its IDm (c.sysn); the NDEF services exist in system pos only
+ElemOk(T, y, s, b) == \/ s = NDEFRW /\ y = T.card.pos /\ T.attr.rwflag # 0 /\ b <= NB(T)
+                      \/ s = OTHSC /\ b < NOth(T)
 TagOk(T, P, c) ==
+    /\ c.sysn \in 0..(T.card.n - 1)
     /\ Len(c.bl) >= 1 /\ Len(c.bl) <= P.nbw
-    /\ \A k \in 1..Len(c.bl) : ElemOk(T, c.sc[k], c.bl[k])
+    /\ \A k \in 1..Len(c.bl) : ElemOk(T, c.sysn, c.sc[k], c.bl[k])
 
 TagApply(T, c) ==
     LET n  == Len(c.bl)
@@ -83,7 +95,8 @@ TagApply(T, c) ==
         KA == {k \in K9 : c.bl[k] = 0}
         B9 == {c.bl[k] : k \in K9} \ {0}
         KO == {k \in 1..n : c.sc[k] = OTHSC}
-        BO == {c.bl[k] : k \in KO}
+        off == c.sysn * NOth(T)                    \* first block of the addressed system's unrelated service
+        BO == {off + c.bl[k] : k \in KO}
         LastK(S, b) == MaxS({k \in S : c.bl[k] = b})
     IN [attr |-> IF KA = {} THEN T.attr ELSE c.dat[MaxS(KA)],
         mem  |-> IF B9 = {} THEN T.mem
@@ -91,7 +104,8 @@ TagApply(T, c) ==
         oth  |-> IF BO = {} THEN T.oth
                  ELSE [x \in 1..Len(T.oth) |->
                         LET b == (x - 1) \div BS IN
-                        IF b \in BO THEN c.dat[LastK(KO, b)][((x - 1) % BS) + 1] ELSE T.oth[x]]]
+                        IF b \in BO THEN c.dat[LastK(KO, b - off)][((x - 1) % BS) + 1] ELSE T.oth[x]],
+        card |-> T.card]
 
 \* ------------------------------------------------------------------ reference reader (T3T operation spec.)
 \* no NDEF: checksum, major version, Ln beyond the announced data area (or beyond the blocks the
@@ -120,9 +134,10 @@ CodeReadPlan(T) ==
 \* ------------------------------------------------------------------ nfcpy writer (tt3.py:228-250)
 Padded(m) == m \o Zeros((BS - (Len(m) % BS)) % BS)
 EncAttr(a) == [a EXCEPT !.rfu = <<0, 0, 0, 0>>, !.ckok = TRUE]      \* _write_attribute_data
-AttrCmd(n, a) == [sc |-> [k \in 1..n |-> NDEFRW], bl |-> [k \in 1..n |-> 0], dat |-> [k \in 1..n |-> a]]
+AttrCmd(n, a) == [sysn |-> ridm, sc |-> [k \in 1..n |-> NDEFRW], bl |-> [k \in 1..n |-> 0],
+                  dat |-> [k \in 1..n |-> a]]
 DataCmd(f, n, bytes) ==
-    [sc |-> [k \in 1..n |-> NDEFRW], bl |-> [k \in 1..n |-> f + k - 1],
+    [sysn |-> ridm, sc |-> [k \in 1..n |-> NDEFRW], bl |-> [k \in 1..n |-> f + k - 1],
      dat |-> [k \in 1..n |-> SubSeq(bytes, (k - 1) * BS + 1, k * BS)]]
 
 WriteCmd ==
@@ -134,12 +149,19 @@ WriteCmd ==
 WriteNextPc == IF pc = "w_on" THEN "w_data" ELSE IF i < LastBlk(Len(msg)) THEN "w_data" ELSE "done"
 WriteNextI == IF pc = "w_on" THEN 1 ELSE i + ra.nbw
 
+\* tag.ndef of a freshly activated reader: after the poll for 12FCh (if the tag was found under another
+\* system code) the commands carry the IDm of the NDEF system
+Discover ==
+    /\ pc = "fresh"
+    /\ pc' = "idle" /\ ridm' = tag.card.pos
+    /\ UNCHANGED <<tag, tag0, phys, op, msg, ra, i, ncmd, last>>
+
 Begin(m) ==
     /\ pc = "idle" /\ HasNdef(tag)
     /\ op' = "write" /\ msg' = m /\ ra' = tag.attr /\ i' = 0
     /\ pc' = IF ~Writeable(tag) THEN "refused"
              ELSE IF Len(m) > RepCap(tag) THEN "rejected" ELSE "w_on"
-    /\ UNCHANGED <<tag, tag0, phys, ncmd, last>>
+    /\ UNCHANGED <<tag, ridm, tag0, phys, ncmd, last>>
 
 \* one Write Without Encryption command `c` reaches the tag (c = WriteCmd for the modelled writer)
 WriteStep(c) ==
@@ -148,12 +170,12 @@ WriteStep(c) ==
     /\ IF TagOk(tag, phys, c)
        THEN tag' = TagApply(tag, c) /\ pc' = WriteNextPc /\ i' = WriteNextI
        ELSE tag' = tag /\ pc' = "error" /\ i' = i
-    /\ UNCHANGED <<tag0, phys, op, msg, ra>>
+    /\ UNCHANGED <<ridm, tag0, phys, op, msg, ra>>
 
 PowerCut ==
     /\ op = "write" /\ pc \in {"w_on", "w_data", "done"}
     /\ pc' = "cut"
-    /\ UNCHANGED <<tag, tag0, phys, op, msg, ra, i, ncmd, last>>
+    /\ UNCHANGED <<tag, ridm, tag0, phys, op, msg, ra, i, ncmd, last>>
 
 \* ------------------------------------------------------------------ nfcpy format (tt3.py:369-460)
 \* ra = [ver, wipe (-1: None), nbw (discovered)]
@@ -162,7 +184,7 @@ FBegin(ver, wipe) ==
     /\ op' = "format" /\ msg' = <<>> /\ i' = 1
     /\ ra' = [ver |-> ver, wipe |-> wipe, nbw |-> 0]
     /\ pc' = IF ver \div 16 # 1 THEN "ffalse" ELSE "f_probe"
-    /\ UNCHANGED <<tag, tag0, phys, ncmd, last>>
+    /\ UNCHANGED <<tag, ridm, tag0, phys, ncmd, last>>
 
 FNbw(n) == IF n = 13 /\ NB(tag) > 255 THEN 12 ELSE n
 FNewAttr == [ver |-> ra.ver, nbr |-> Min2(15, phys.nbr), nbw |-> FNbw(ra.nbw), nmaxb |-> NB(tag),
@@ -189,27 +211,30 @@ FormatStep(c) ==
             [] pc = "f_wipe" ->
                  IF ok THEN pc' = (IF i > 1 THEN "f_wipe" ELSE "fdone") /\ i' = i - 1 /\ ra' = ra
                  ELSE pc' = "error" /\ i' = i /\ ra' = ra
-    /\ UNCHANGED <<tag0, phys, op, msg>>
+    /\ UNCHANGED <<ridm, tag0, phys, op, msg>>
 
 \* ------------------------------------------------------------------ exhaustive model (scaled constants)
 OldMem(n) == [b \in 1..n |-> [j \in 1..BS |-> 1 + (((b - 1) * BS + j) % 2)]]
-OthMem == [x \in 1..BS |-> 9]
+OthMem(n) == [x \in 1..(n * BS) |-> 9]
 NewMsg(kind, n) == IF kind = "a" THEN [x \in 1..n |-> 3 + (x % 2)]
                    ELSE [x \in 1..n |-> IF x % 2 = 0 THEN 0 ELSE 1]
 
 Init ==
     /\ \E nmaxb \in Nmaxbs, ex \in Extras, nbr \in Nbrs, nbw \in Nbws, rw \in RWFlags,
-          wf \in WriteFs, ver \in Vers, ck \in CkOks, rfu \in Rfus :
+          wf \in WriteFs, ver \in Vers, ck \in CkOks, rfu \in Rfus, cc \in Cards :
          \E ln \in 0..(nmaxb * BS) :
             /\ tag = [attr |-> [ver |-> ver, nbr |-> nbr, nbw |-> nbw, nmaxb |-> nmaxb,
                                 rfu |-> <<rfu, rfu, rfu, rfu>>, writef |-> wf, rwflag |-> rw,
                                 ln |-> ln, ckok |-> ck],
-                      mem |-> [nb |-> nmaxb + ex, gen |-> 0, w |-> OldMem(nmaxb + ex)], oth |-> OthMem]
+                      mem |-> [nb |-> nmaxb + ex, gen |-> 0, w |-> OldMem(nmaxb + ex)],
+                      oth |-> OthMem(cc \div 100), card |-> [n |-> cc \div 100, pos |-> (cc \div 10) % 10]]
             /\ phys = [nbr |-> nbr, nbw |-> nbw]
+            /\ ridm = cc % 10
     /\ tag0 = tag
-    /\ pc = "idle" /\ op = "none" /\ msg = <<>> /\ ra = 0 /\ i = 0 /\ ncmd = 0 /\ last = NoCmd
+    /\ pc = "fresh" /\ op = "none" /\ msg = <<>> /\ ra = 0 /\ i = 0 /\ ncmd = 0 /\ last = NoCmd
 
 Next ==
+    \/ Discover
     \/ \E kind \in MsgKinds, n \in 0..(RepCap(tag) + 1) : Begin(NewMsg(kind, n))
     \/ WriteStep(WriteCmd)
     \/ WithCut /\ PowerCut
@@ -239,7 +264,8 @@ InArea(c, area) == \A k \in 1..Len(c.bl) : c.sc[k] = NDEFRW /\ c.bl[k] \in area
 MgmtKept == /\ tag.attr.ver = tag0.attr.ver /\ tag.attr.nbr = tag0.attr.nbr /\ tag.attr.nbw = tag0.attr.nbw
             /\ tag.attr.nmaxb = tag0.attr.nmaxb /\ tag.attr.rwflag = tag0.attr.rwflag
 Confined ==
-    /\ tag.oth = tag0.oth
+    /\ tag.oth = tag0.oth /\ tag.card = tag0.card
+    /\ last # NoCmd => last.sysn = tag0.card.pos          \* no write command is addressed to another system
     /\ op = "write" =>
          /\ tag.mem.nb = tag0.mem.nb /\ tag.mem.gen = tag0.mem.gen
          /\ \A b \in DOMAIN tag.mem.w : b > tag0.attr.nmaxb => tag.mem.w[b] = Blk(tag0.mem, b)
@@ -248,7 +274,7 @@ Confined ==
     /\ op = "format" => InArea(last, 0..NB(tag0))
     /\ pc \in {"rejected", "refused", "ffalse"} => tag = tag0
 
-TypeOK == pc \in {"idle", "refused", "rejected", "w_on", "w_data", "done", "cut", "error",
+TypeOK == pc \in {"fresh", "idle", "refused", "rejected", "w_on", "w_data", "done", "cut", "error",
                   "ffalse", "f_probe", "f_attr", "f_wipe", "fdone"}
 
 \* ------------------------------------------------------------------ reachability witnesses (must be violated)
@@ -260,6 +286,7 @@ W_Refused == ~(pc = "refused")
 W_Batches == ~(pc = "w_data" /\ Len(last.bl) >= 2 /\ i < LastBlk(Len(msg)))
 W_Full == ~(pc = "done" /\ Len(msg) = RepCap(tag0) /\ Len(msg) >= 2 * BS /\ NB(tag) * BS > Len(msg))
 W_Recover == ~(pc = "done" /\ tag0.attr.writef # 0 /\ Len(msg) > 0)
+W_OtherSystem == ~(pc = "done" /\ tag.card.n = 3 /\ tag.card.pos = 2 /\ Len(msg) > BS)
 W_EmptyMsg == ~(pc = "done" /\ Len(msg) = 0 /\ tag0.attr.ln > 0)
 W_FormatWipe == ~(pc = "fdone" /\ ra.wipe >= 0 /\ ncmd > 3 /\ tag.attr.nmaxb > tag0.attr.nmaxb)
 =============================================================================
